@@ -385,8 +385,10 @@ def c18(run):
     run.model("MC_group_q.cfg" if quick else "MC_group.cfg", "MC_group.tla", workers=8, timeout=900)
     n = 1 if quick else 4
     scen = {
-        "map": ["map:kv16:collide:24:%d:wide" % (700 * n), "map:k4v4:zero:14:%d:basic" % (400 * n), "map:kv16:fewpos:30:%d:entry" % (400 * n)],
-        "tab": ["table:te24:collide:20:%d:table" % (600 * n), "set:k8t:collide:20:%d:setalg" % (500 * n)],
+        # det=1: order-insensitive API use only (no partially consumed extract_if, no equal duplicates in tables), because
+        # which elements a partial traversal visits and which duplicate a lookup hits depend on the bucket layout
+        "map": ["map:kv16:collide:24:%d:wide:det=1" % (700 * n), "map:k4v4:zero:14:%d:basic:det=1" % (400 * n), "map:kv16:fewpos:30:%d:entry:det=1" % (400 * n)],
+        "tab": ["table:te24:collide:20:%d:table:det=1" % (600 * n), "set:k8t:collide:20:%d:setalg:det=1" % (500 * n)],
     }
     jobs = []
     for name, sc in scen.items():
